@@ -8,7 +8,22 @@ ALL = ["C%02d" % i for i in range(1, 20)]
 PARSE_NOTE = ("Trusted: TLC, the JSON reader, the recorder's verbatim copy of spans. Exhaustive only up to the stated string "
               "length; longer inputs are the repository's own recipes and seeded random splices.")
 
+DOC_NOTE = ("Trusted: TLC, the JSON reader, the projection (harness/cookverif/src/project.rs). Kernels are exhaustive only "
+            "inside their pools/bounds; the full vocabulary is covered by seeded random walks. Step text is compared up to runs of blanks.")
+
 CHECKS = {
+    "C01": dict(
+        text="The documented language is specified as a generator (spec/CookDoc.tla) coupled to a transcription of the "
+             "analysis pass (spec/CookAnalysis.tla): each writing action appends one documented spelling of a construct and "
+             "feeds the corresponding event to the analysis model, so every finished behaviour carries the text and the "
+             "recipe model it must parse to. TLC enumerates kernels exhaustively (reference resolution for ingredients and "
+             "cookware in all mode pairs, structure with sections/paragraphs/intermediate references, mode switches) and "
+             "random-walks the full vocabulary with random spelling, under the canonical and the extended parser. Each "
+             "document is parsed by the real library and TLC judges the projected result (spec/Trace_Doc.tla): no error, "
+             "and ingredients, cookware, timers, inline quantities, sections/steps/text/numbers, metadata and servings "
+             "equal to the prediction.",
+        design="6 (C01), 3.4, 3.5", technique="TLA+ generator+analysis model, TLC exhaustive kernels and simulation, replay into the parser, trace validation",
+        note=DOC_NOTE),
     "C03": dict(
         text="The public API is specified as a typestate protocol (spec/CookApi.tla: parse -> result -> scalable -> scaled, "
              "with the consumers each state allows); TLC enumerates every program of the protocol up to a call bound and "
@@ -38,6 +53,16 @@ CHECKS = {
              "or digit outside comments must lie inside some event span whenever the stream has no error event.",
         design="6 (C05)", technique="TLA+ conservation predicate (independent comment/front-matter scanner) judged by TLC over recorded event streams",
         note=PARSE_NOTE),
+    "C06": dict(
+        text="The eleven consistency predicates (indices, document order, back-links exactly once, step/section reference "
+             "bounds, step numbering, nothing empty, timers, reference <=> modifier, same folded name) are operators of "
+             "spec/CookAnalysis.tla. TLC checks them as invariants of every generated document of every kernel and walk "
+             "(analysis errors included), and then judges with the very same operators the model the real parser returns "
+             "for those documents and for the plain corpora (exhaustive short strings, repository recipes, splices, "
+             "repetitions) under several extension sets and both converters; the per-event collector snapshots of hook H2 "
+             "are validated against the scalar transition relation of the analysis model (SnapStep).",
+        design="6 (C06), 3.5", technique="TLA+ invariants on the analysis model + trace validation of returned models and collector snapshots",
+        note=DOC_NOTE),
     "C11": dict(
         text="TLC explores the line-at-a-time model of aisle::parse (spec/CookAisle.tla) exhaustively over every symbol "
              "string up to a bound and every file of pool lines, checking duplicate-freedom, span bounds, lookup and "
